@@ -109,6 +109,20 @@ class Mon(object):
                 st.violation("C09:wrapping-display-differs:%s" % L.family(), line, "Wrapping(x).to_string() != x.to_string()")
             st.cover(L.name, "fr", (opclass(L, a), "len%d" % min(len(text) // 8, 8)), a != 0, line)
             return
+        if op == "fw":
+            # Display of Wrapping<F> next to Display of F under the same specification: identical text
+            # (F's own text is judged by the fm events; this is the forwarding)
+            outs = toks[7:]
+            st.checks += 1
+            if outs[0][0] == "P":
+                st.violation("C09:wrapping-display:panic:%s" % L.family(), line, "panicked: %s" % panic_text(outs[0]))
+            elif outs[0] != outs[1]:
+                st.violation("C09:wrapping-display-differs:%s" % L.family(), line,
+                             "format!(spec, Wrapping(x)) = %r but format!(spec, x) = %r (flags %s width %s precision %s)" % (
+                                 unhex(outs[0][2:]).decode(), unhex(outs[1][2:]).decode() if outs[1][0] == "T" else outs[1],
+                                 toks[3], toks[4], toks[5]))
+            st.cover(L.name, "fw", (toks[3], toks[4] != "-", toks[5] != "-"), a != 0, line)
+            return
         if op != "fm":
             return
         kind = int(toks[3], 16)
